@@ -1,4 +1,5 @@
 import RedoModel.TokLoop
+import RedoModel.Props.C09b
 /-!
 # C09 — No interleaving crashes or deadlocks the scheduler
 Property theorems only.  Model: `RedoModel/TokLoop.lean` (one process's token counter under every
